@@ -214,11 +214,21 @@ func lifeRun(cond, cause, order string) string {
 		third.setPaused(true)
 		floodDone = flood(subj, "toT", 80)
 		flood(third, "toS", 80)
-	case "chunked", "chunkwhole":
+	case "chunked", "chunkwhole", "chunknear":
 		// a 16 000-byte PUBLISH: it needs the last read block of the 16 KiB incoming ring
 		pkt := wPub{topic: []byte("big"), payload: make([]byte, 16000-8)}.encode()
 		var pieces []int
-		if cond == "chunked" {
+		if cond == "chunknear" {
+			// a PUBLISH of exactly the ring size of which everything but the last byte arrives: one byte of
+			// the incoming ring stays free, the receiver must still be inside a socket read (a receiver that
+			// waits for more than one free byte before it reads again is parked here for good)
+			pkt = wPub{topic: []byte("big"), payload: make([]byte, 16384)}.encode()
+			pkt = wPub{topic: []byte("big"), payload: make([]byte, 16384-(len(pkt)-16384))}.encode()
+			for i := 0; i < 16; i++ {
+				pieces = append(pieces, 1000)
+			}
+			pieces = append(pieces, len(pkt)-16000-1)
+		} else if cond == "chunked" {
 			// the first 15 000 bytes in 1000-byte writes, then nothing: the packet never completes
 			for i := 0; i < 15; i++ {
 				pieces = append(pieces, 1000)
@@ -256,7 +266,7 @@ func lifeRun(cond, cause, order string) string {
 	} else {
 		time.Sleep(100 * time.Millisecond)
 	}
-	if cond == "chunked" || cond == "chunkwhole" {
+	if cond == "chunked" || cond == "chunkwhole" || cond == "chunknear" {
 		// the pieces have all been taken by the broker (a receiver that stops reading - F3 - leaves the
 		// writer blocked: go on after a while, the scenario then shows the wedge)
 		select {
@@ -414,7 +424,8 @@ func (lifeCore) handle(ws []string) string {
 // chunkScns: a packet that needs the last read block of the incoming ring arrives in pieces - never completed
 // (chunked; the causes that are bytes make no sense there) or completed and processed (chunkwhole).  Ordinary
 // scenarios since 8f682d1 (before: finding F3, the connection wedged).
-var chunkScns = []lifeScn{{"chunkwhole", "close", "s"}, {"chunkwhole", "disconnect", "s"}, {"chunked", "close", "s"},
+var chunkScns = []lifeScn{{"chunkwhole", "close", "s"}, {"chunknear", "close", "s"}, {"chunked", "close", "s"}, {"chunkwhole", "disconnect", "s"},
+	{"chunknear", "keepalive", "s"},
 	{"chunkwhole", "keepalive", "s"}, {"chunked", "keepalive", "s"}, {"chunkwhole", "protoerr", "s"}, {"chunkwhole", "oversize", "s"}}
 
 // genLife: the cause x condition matrix of the property's quantifier (idle, own outgoing ring full, incoming ring
